@@ -27,7 +27,7 @@ from pipefunc import PipeFunc, Pipeline
 from pipefunc.typing import Array, ArrayElementType, NoAnnotation, is_type_compatible
 
 PID = "C16"
-PROPS = ["PfModel.Props.C16", "PfModel.Props.C16Pipe", "PfModel.Props.C16Sem", "PfModel.Props.C16X", "PfModel.Props.C16XSub", "PfModel.Props.C16Inc"]
+PROPS = ["PfModel.Props.C16", "PfModel.Props.C16Pipe", "PfModel.Props.C16Sem", "PfModel.Props.C16X", "PfModel.Props.C16XSub", "PfModel.Props.C16Inc", "PfModel.Props.C16Bridge"]
 DRIVER = "C16"
 RULE = ("annotations are real typing objects built from a JSON grammar (int,bool,float,str,bytes,None,Any,missing,object ndarray, "
         "list/set/tuple/dict[...], Union/Optional, Annotated[T, meta] with class or string metadata, unions spelled Union[...] or X | Y, Array[T], free/bounded/constrained "
